@@ -20,7 +20,7 @@ TEXT = {
                 note=_STORE_NOTE, technique='Lean 4 invariant proof + differential correspondence', ref='DESIGN.md 5 C03'),
     'C09': dict(level='Theorems on the abstract graph (handshake identities, counts) transferred to the model; all count/degree/'
                 'density/matrix functions compared with the specification on generated histories.',
-                note=_STORE_NOTE + ' sprs triplet->CSR conversion is library code.', technique='Lean 4 proof + differential correspondence',
+                note=_STORE_NOTE + ' sprs triplet->CSR conversion is library code.', technique='Lean 4 proof + formula translator + differential correspondence',
                 ref='DESIGN.md 5 C09'),
     'C15': dict(level='Theorems that subgraph/reverse/reweight/collapse of the model equal the abstract derived graph; all four '
                 'compared (nodes, edges, traversal lists, source unchanged) for every subset of the universe.',
@@ -35,12 +35,12 @@ TEXT = {
     'C05': dict(level='Definition-level specification of betweenness in Lean (enumeration of all shortest paths) evaluated on the '
                 "implementation's output for graphs up to 8 nodes; Brandes stage/accumulation model in exact rationals compared with the "
                 'implementation on all sizes incl. the parallel path; theorems on the scaling rule, shape and accumulation.',
-                note='Trusted as for C04; f64 accumulation is compared with relative tolerance 1e-9.', technique='Lean 4 proof + definition-level '
+                note='Trusted as for C04; f64 accumulation is compared with relative tolerance 1e-9.', technique='Lean 4 proof + formula translator + definition-level '
                 'spec check + differential correspondence', ref='DESIGN.md 5 C05'),
     'C06': dict(level='Definition-level specification of closeness (incoming distances via Bellman-Ford on the abstract graph) evaluated on the '
                 "implementation's output; model (reverse + level BFS / Dijkstra stage + get_node_centrality) in exact rationals compared "
                 'with the implementation; theorems on get_node_centrality and reversal.',
-                note='Trusted as for C04; f64 quotient compared with relative tolerance 1e-9.', technique='Lean 4 proof + definition-level spec '
+                note='Trusted as for C04; f64 quotient compared with relative tolerance 1e-9.', technique='Lean 4 proof + formula translator + definition-level spec '
                 'check + differential correspondence', ref='DESIGN.md 5 C06'),
     'C07': dict(level='Theorem: an indexed parallel collect followed by a sequential fold equals the serial computation for every schedule and '
                 'every thread count (C07_parCollect_eq_map, C07_schedule_independent, C07_threads_independent). The shape assumption is '
@@ -64,17 +64,17 @@ TEXT = {
                 'compared with them; model of every cluster function compared; theorems on counts and the unit interval.',
                 note='Trusted as for C04; weighted coefficients are evaluated over Float (cbrt) with tolerance 1e-9. Directed square clustering is '
                      'not specified (iteration-order dependent) and only checked for panics (C20).',
-                technique='Lean 4 proof + definition-level spec check + differential correspondence', ref='DESIGN.md 5 C11'),
+                technique='Lean 4 proof + formula translator + definition-level spec check + differential correspondence', ref='DESIGN.md 5 C11'),
     'C12': dict(level='Theorem: is_partition model = "pairwise disjoint, only graph nodes, covering"; Newman\'s formula over the abstract graph in '
                 'exact rationals compared with the implementation for true partitions, NotAPartition demanded for everything else.',
-                note='Trusted as for C04; value compared with tolerance 1e-9.', technique='Lean 4 proof + spec comparison + differential '
+                note='Trusted as for C04; value compared with tolerance 1e-9.', technique='Lean 4 proof + formula translator + spec comparison + differential '
                 'correspondence', ref='DESIGN.md 5 C12'),
     'C13': dict(level='Lean checker on every Louvain output: non-empty list of levels, each a partition into non-empty communities, each level '
                 'coarsens the previous, exact (rational) modularity on the input graph non-decreasing and first level >= singletons, '
                 'louvain_communities = last level; termination observed under a watchdog; theorems on the gain formula (gain = m*deltaQ); a step-level exact model of the implementation compared level by level.',
-                note='Partial: termination and monotonicity are observed through the checker, not proved of the model; the model comparison is skipped when two '
+                note='Partial: termination is proved of the exact-arithmetic model (bound n^n sweeps), for the f64 implementation it is observed under a watchdog; monotonicity of modularity is observed through the checker; the model comparison is skipped when two '
                      'candidate gains are within 1e-9 (f64 rounding decides). The shuffle permutations are inputs computed by the harness with the same rand call.',
-                technique='Lean 4 proof (gain identity, checker) + spec check on implementation output', ref='DESIGN.md 5 C13'),
+                technique='Lean 4 proof (gain identity, partition invariants, termination of the model, checker) + formula translator + spec check on implementation output + differential correspondence', ref='DESIGN.md 5 C13'),
     'C14': dict(level='Event-level model of the GraphML writer and reader; theorem: readEvents (writeEvents g) rebuilds g; the real document is '
                 'tokenised with the same quick-xml and compared with the model writer, the real read-back graph with the original '
                 '(names over hostile alphabets, weights by bit pattern).',
@@ -88,7 +88,7 @@ TEXT = {
                 'tie-rich graphs, G(n,p)); theorem that the deterministic tie-break (argmax over a sorted candidate list) is independent of '
                 'the iteration order of the candidate map.',
                 note='Partial: the std hasher and process state are runtime behaviour; exercised, not modelled.',
-                technique='Lean 4 proof (order-independent argmax) + repeated-run / fresh-process differential runs', ref='DESIGN.md 5 C17'),
+                technique='Lean 4 proof (order-independent argmax) + formula translator + repeated-run / fresh-process differential runs', ref='DESIGN.md 5 C17'),
     'C18': dict(level='Lean checker of an Ok answer (keys, non-negativity, unit norm, next-step bound 2*||I+A^T||_F*n*tol) run on the '
                 'implementation\'s output; Float model of the power iteration compared with the implementation; theorems on the step.',
                 note='Partial: evaluated over Float with slack 1e-9; IEEE rounding not modelled.', technique='Lean 4 proof + spec check + '
@@ -129,6 +129,9 @@ MODEL_LEVEL.update({
     'C16': 'Props/C16Store: the generated graph never fails for any skip sequence, has nodes 0..n-1 and exactly the emitted pairs; every subset of the undirected '
            'slots and every directed pair is produced by some skip sequence. Props/C16Dist: the undirected generator is the plain slot process; with independent geometric(p) '
            'skips the probability of emitting exactly a given set S of pairs is p^|S| (1-p)^(N-|S|) (HasSum over the preimage, which is characterised exactly), masses sum to 1, mean = pN.',
+    'C13': 'Model level (Props/C13Model, C13Termination, C13TerminationFull): every returned level is a partition into non-empty sets, levels are nested, no index / unwrap site can panic; '
+           'the local-moving loop terminates (a move strictly improves the potential or lowers the community-id sum; fuel k^k+1), the level loop needs at most n+2 levels, and the whole model never stops for lack of fuel '
+           '(C13_model_terminates); FormulasC13: the gain expressions and the acceptance test regenerated from louvain.rs are the model\'s.',
     'C17': 'Props/C17Model: the Louvain visit / sweep / level of the step model are independent of the iteration order of the candidate-community map.',
 })
 MODEL_LEVEL.update({
